@@ -95,6 +95,9 @@ async def input_object_coercer(
 
     input_fields = input_object_type.input_fields
 
+    if any(field_name not in input_fields for field_name in field_nodes):
+        return CoercionResult(value=UNDEFINED_VALUE)
+
     results = await asyncio.gather(
         *[
             input_field_value_coercer(
